@@ -1232,3 +1232,80 @@ def _array_rule(ctx):
 rule("C06", "D6.12", "T-WITNESS", floor=15)(_array_rule)
 rule("C07", "D7.10", "T-WITNESS", floor=15)(_array_rule)
 rule("C08", "D8.10", "T-WITNESS", floor=15)(_array_rule)
+
+
+# ---------------------------------------------------------------------------------------------------------------- small helpers
+@rule("C01", "D1.19", "T-WITNESS", floor=6)
+def d1_19(ctx):
+    """Small routing helpers folded on witnesses: `send` routes a fragmented read / write request to its fragmented sender and
+    everything else to the plain transport; `_tag_return_size` is element size x element count (atomic: the type's size,
+    structure: the template's structure size); `get_array_index` splits the last `[n]` off a tag and leaves other tags alone."""
+    lx = _lx(ctx)
+    fn = lx.methods["send"]
+    for label, kind_, want in (("fragmented read request", "ReadTagFragmentedRequestPacket", "rf"), ("fragmented write request", "WriteTagFragmentedRequestPacket", "wf"), ("plain read request", "ReadTagRequestPacket", "plain"),
+                               ("multi-service request", "MultiServiceRequestPacket", "plain"), ("read-modify-write request", "ReadModifyWriteRequestPacket", "plain")):
+        req = Obj(kind=kind_)
+
+        def hook(call, env, it, req=req):
+            n = call_name(call) or ""
+            f = call.func
+            if n == "isinstance" and isinstance(f, ast.Name) and len(call.args) == 2 and it.ev(call.args[0], env) is req:
+                names = [ast.unparse(x).split(".")[-1] for x in (call.args[1].elts if isinstance(call.args[1], ast.Tuple) else [call.args[1]])]
+                hier = {"ReadTagFragmentedRequestPacket": {"ReadTagFragmentedRequestPacket", "ReadTagRequestPacket"}, "WriteTagFragmentedRequestPacket": {"WriteTagFragmentedRequestPacket", "WriteTagRequestPacket"}}
+                mine = hier.get(req.kind, {req.kind}) | {"RequestPacket", "SendUnitDataRequestPacket", "TagServiceRequestPacket" if "Tag" in req.kind else ""}
+                return any(x in mine for x in names)
+            if attr_path(f) == "self._send_read_fragmented":
+                return ("rf", it.ev(call.args[0], env))
+            if attr_path(f) == "self._send_write_fragmented":
+                return ("wf", it.ev(call.args[0], env))
+            if isinstance(f, ast.Attribute) and f.attr == "send" and isinstance(f.value, ast.Call) and getattr(f.value.func, "id", "") == "super":
+                return ("plain", it.ev(call.args[0], env))
+            return UNKNOWN
+
+        kind, res = run_function(ctx, lx.module, fn, {"self": Obj(), fn.args.args[1].arg: req}, call_hook=hook, deep=False)
+        key = ckey(lx.key + ".send", f"witness:{label}")
+        if kind == "unknown":
+            ctx.undecided(key, fn, f"send not foldable on a {label}: {res}")
+        else:
+            ctx.check(kind == "return" and res == (want, req), key, fn, f"{label} -> {want}", f"send({label}) gives {kind} {res!r}; expected the request handed to the {want} sender")
+    trs = ctx.model.func(f"{LX}:_tag_return_size")
+    dint = ctx.folder.eval(ast.parse("DataTypes['DINT'].size", mode="eval").body, lx.module)
+    for label, td, want in (("atomic DINT x 3", {"tag_info": {"tag_type": "atomic", "data_type": "DINT"}, "elements": 3}, (dint or 4) * 3),
+                            ("atomic LREAL x 1", {"tag_info": {"tag_type": "atomic", "data_type": "LREAL"}, "elements": 1}, 8),
+                            ("structure of 88 bytes x 2", {"tag_info": {"tag_type": "struct", "data_type": {"template": {"structure_size": 88}}}, "elements": 2}, 176)):
+        kind, res = run_function(ctx, trs.module, trs.node, {trs.node.args.args[0].arg: td}, deep=False)
+        _report(ctx, ckey(trs, f"witness:{label}"), trs.node, label, (kind, res), ("return", want), "_tag_return_size")
+    gai = ctx.model.func("pycomm3.util:get_array_index")
+    for tag, want in (("tag[100]", ("tag", 100)), ("tag", ("tag", None)), ("udt_arr[2].flags[5]", ("udt_arr[2].flags", 5)), ("udt_arr[2].flags", ("udt_arr[2].flags", None)), ("a[0]", ("a", 0)), ("Program:P.t[31]", ("Program:P.t", 31))):
+        kind, res = run_function(ctx, gai.module, gai.node, {gai.node.args.args[0].arg: tag}, deep=False)
+        if kind == "return" and isinstance(res, list):
+            res = tuple(res)
+        _report(ctx, ckey(gai, f"witness:{tag}"), gai.node, tag, (kind, res), ("return", want), "get_array_index")
+
+
+def _bytes_and_symbol_rule(ctx):
+    """Two small encoders folded on witnesses: an ANSI extended symbol segment is 0x91, the character count, the characters
+    and a pad byte when the count is odd; a byte-string placeholder type of n bytes encodes the first n bytes and the
+    consume-all form (n = -1) encodes all of them."""
+    DTm = "pycomm3.cip.data_types"
+    ds = ctx.model.cls(f"{DTm}:DataSegment")
+    fn = ds.methods["_encode"]
+    for name, want in (("abc", b"\x91\x03abc\x00"), ("ab", b"\x91\x02ab"), ("Program:MainProgram", b"\x91\x13Program:MainProgram\x00"), ("T", b"\x91\x01T\x00")):
+        cls = Obj(_ci=ds, _is_class=True)
+        kind, res = run_function(ctx, ds.module, fn, {fn.args.args[0].arg: cls, fn.args.args[1].arg: Obj(data=name), **({fn.args.args[2].arg: False} if len(fn.args.args) > 2 else {})}, deep=False)
+        res = bytes(res) if isinstance(res, bytearray) else res
+        _report(ctx, ckey(ds.key + "._encode", f"witness:{name}"), fn, f"symbol {name!r}", (kind, res), ("return", want), "DataSegment._encode")
+    bt = ctx.model.cls(f"{DTm}:BytesDataType")
+    fn = bt.methods["_encode"]
+    for size, value, want in ((2, b"abcd", b"ab"), (4, b"abcd", b"abcd"), (-1, b"abc", b"abc"), (-1, b"", b""), (6, b"\x01\x02\x03\x04\x05\x06\x07", b"\x01\x02\x03\x04\x05\x06")):
+        env = {fn.args.args[0].arg: Obj(size=size), fn.args.args[1].arg: value}
+        if fn.args.vararg:
+            env[fn.args.vararg.arg] = ()
+        if fn.args.kwarg:
+            env[fn.args.kwarg.arg] = {}
+        kind, res = run_function(ctx, bt.module, fn, env, deep=False)
+        _report(ctx, ckey(bt.key + "._encode", f"witness:{size}:{value.hex()}"), fn, f"n_bytes({size}).encode({value!r})", (kind, res), ("return", want), "BytesDataType._encode")
+
+
+rule("C09", "D9.10", "T-WITNESS", floor=8)(_bytes_and_symbol_rule)
+rule("C06", "D6.13", "T-WITNESS", floor=8)(_bytes_and_symbol_rule)
